@@ -2846,11 +2846,20 @@ def check(ck):
           "the caller's context args are inherited only when the call attached none" if ok2 else
           "context args are not inherited exactly when the call has none of its own (guard or source changed)", rb.where())
     rebuilt = [c for c in rb.calls("FunctionReferenceWithArguments")]
-    ok3 = len(rebuilt) == 1 and len(ups) == 1 and bool(un) and bool(rb.nodes(rebuilt[0]))
+    # (a reference made by the function given to map(): `refs = list(map(lambda ref: Reference(...), refs))`)
+    mapped = {}
+    for st_ in rb.stmts(ast.Assign):
+        v_ = strip_cast(st_.value)
+        m_ = v_.args[0] if isinstance(v_, ast.Call) and A.call_attr(v_) == "list" and len(v_.args) == 1 and not v_.keywords else None
+        if isinstance(m_, ast.Call) and isinstance(m_.func, ast.Name) and m_.func.id == "map" and len(m_.args) == 2 and not m_.keywords and isinstance(m_.args[0], ast.Lambda) \
+                and isinstance(m_.args[0].body, ast.Call) and A.call_attr(m_.args[0].body) == "FunctionReferenceWithArguments" and rb.nodes(st_):
+            mapped[id(m_.args[0].body)] = (st_, v_, m_, m_.args[0])
+            rebuilt.append(m_.args[0].body)
+    ok3 = len(rebuilt) == 1 and len(ups) == 1 and bool(un) and (bool(rb.nodes(rebuilt[0])) or id(rebuilt[0]) in mapped)
     if ok3:
         c = rebuilt[0]
-        at = rb.nodes(c)[0]
-        par = rb.pm.get(c)
+        at = rb.nodes(c)[0] if rb.nodes(c) else rb.nodes(mapped[id(c)][0])[0]
+        par = mapped[id(c)][3] if id(c) in mapped else rb.pm.get(c)
         cv = src = None
         rows = {}
         made, heads = [], []
@@ -2869,6 +2878,18 @@ def check(ck):
                 holders = {(i, st.targets[0].id) for i in rb.nodes(st)}
                 made = [d_ for i in rb.nodes(st) for d_ in rb.df.gen.get(i, []) if d_.name == st.targets[0].id]
                 heads = through
+        elif isinstance(par, ast.Lambda) and par.body is c and len(par.args.args) == 1 and not par.args.defaults and par.args.vararg is None \
+                and par.args.kwarg is None and not par.args.kwonlyargs and not getattr(par.args, "posonlyargs", []):
+            # list(map(lambda ref: Reference(...), refs)): one element made for each element, in order - the comprehension by another name
+            st, outer, mp, _lam = mapped.get(id(c), (None, None, None, None))
+            tgt = ast.Name(id=par.args.args[0].arg, ctx=ast.Store())
+            if mp is not None and element_rows(tgt, mp.args[1]) is not None:
+                if outer is not None and isinstance(st, ast.Assign) and st.value is outer and len(st.targets) == 1 and isinstance(st.targets[0], ast.Name):
+                    cv, src, rows = element_rows(tgt, mp.args[1])
+                    through = rb.nodes(st)
+                    holders = {(i, st.targets[0].id) for i in rb.nodes(st)}
+                    made = [d_ for i in rb.nodes(st) for d_ in rb.df.gen.get(i, []) if d_.name == st.targets[0].id]
+                    heads = through
         elif isinstance(par, ast.Call) and A.call_attr(par) == "append" and par.args == [c] and isinstance(A.call_recv(par), ast.Name):
             st = rb.stmt_of(c)
             loop = rb.enclosing(st, (ast.For, ast.While))
@@ -2893,6 +2914,9 @@ def check(ck):
             a = [A.arg_or_kw(c, i, n) for i, n in enumerate(("fn_reference", "args", "kwargs", "context_args"))]
             ok3 = all(x is not None for x in a) and [A.norm(subst_names(x, rows)) for x in a[:3]] == [cv + ".fn_reference", cv + ".args", cv + ".kwargs"] \
                 and is_inherited(a[3], at)
+            if ok3 and id(c) in mapped:
+                # (read in the enclosing function: nothing in it is the function's own parameter)
+                ok3 = not any(isinstance(n_, ast.Name) and n_.id == par.args.args[0].arg for n_ in ast.walk(a[3]))
         # built after the update, on every inheriting path, and it is what is dispatched
         _same = []
 
